@@ -466,6 +466,42 @@ func Check(env *core.Env, rep *core.Report) *core.Result {
 			time.Sleep(2500 * time.Millisecond)
 		}
 		p.waitStable(1500*time.Millisecond, 10*time.Second)
+		// KeepsServing: after all of that the watcher still serves events - one more write to a selected
+		// file that still exists must be received
+		for _, f := range []string{"f1.txt", "f2.txt", "f3.txt"} {
+			if gone[f] {
+				continue
+			}
+			count := func() int {
+				n := 0
+				for _, e := range p.events() {
+					if e.E == "watch-event" && e.W == "w" && e.Path == f {
+						n++
+					}
+				}
+				return n
+			}
+			before := count()
+			if fh, e := os.OpenFile(filepath.Join(root, f), os.O_APPEND|os.O_WRONLY, 0o644); e == nil {
+				_, _ = fh.WriteString("probe\n")
+				_ = fh.Close()
+			}
+			ops = append(ops, "write "+f)
+			touchedSel[f] = true
+			lim := time.Now().Add(12 * time.Second)
+			for count() == before && time.Now().Before(lim) {
+				time.Sleep(50 * time.Millisecond)
+			}
+			if count() == before {
+				add("events:watcher-stopped-serving", fmt.Sprintf("after %v a further write to the selected file %s was not received within 12 s", ops[:len(ops)-1], f), map[string]interface{}{"ops": ops, "yaml": y.String(), "output": tail(p.text(), 1200)})
+				return
+			}
+			if slow {
+				time.Sleep(2500 * time.Millisecond)
+			}
+			p.waitStable(1500*time.Millisecond, 10*time.Second)
+			break
+		}
 		txt := p.text()
 		if strings.Contains(txt, "panic:") {
 			add("events:crash", "the watcher crashed while handling events", map[string]interface{}{"ops": ops, "output": tail(txt, 800)})
